@@ -1336,12 +1336,12 @@ func rangeOracle(ti *typeInfo, lit, lit2 string) (want Val, inRange, ok bool) {
 		if !intLitRE.MatchString(lit) {
 			return Val{}, false, false
 		}
-		if ti.class == "uint" && (lit[0] == '+' || lit[0] == '-' && strings.Trim(lit[1:], "0xXoObB_") == "") {
-			return Val{}, false, false // "+5", "-0": sign syntax, not range
-		}
 		n, good := new(big.Int).SetString(lit, 0)
 		if !good {
 			return Val{}, false, false
+		}
+		if ti.class == "uint" && (lit[0] == '+' || lit[0] == '-' && n.Sign() == 0) {
+			return Val{}, false, false // "+5", "-0": sign syntax, not range
 		}
 		if n.Cmp(ti.minBig()) < 0 || n.Cmp(ti.maxBig()) > 0 {
 			return Val{}, false, true
